@@ -34,6 +34,7 @@ pub fn plan(check: Check, seed: u64) -> (Profile, OpMix) {
         perms: true,
         tag_on_modifiers: false,
         extra: 6,
+        tiny_patterns: true,
     };
     let mix = OpMix { n_ops: (6, 40), blocker_driver: false, tags: 25, clock: 15, evict: 12, serial: 10, restart: 3, resources: 6, add_filter: 0, optimize: 0, queries: 30 };
     match check {
@@ -57,7 +58,7 @@ pub fn plan(check: Check, seed: u64) -> (Profile, OpMix) {
             }
         }
         Check::C07 => (
-            Profile { p_tag: 60, n_rules: (10, 60), ..base },
+            Profile { p_tag: 60, n_rules: (10, 60), tiny_patterns: false, ..base },
             OpMix { tags: 40, serial: 12, restart: 5, clock: 8, evict: 8, resources: 2, ..mix },
         ),
         Check::C08 => (
